@@ -48,6 +48,31 @@ func TestC01(t *testing.T) {
 		{MinTypes: 3, MaxTypes: 8, MinOps: 20, MaxOps: 60, Async: true, Scripts: true},
 		{MinTypes: 1, MaxTypes: 2, MinOps: 10, MaxOps: 30, Async: false, Scripts: true, FewClasses: true},
 		{MinTypes: 2, MaxTypes: 5, MinOps: 20, MaxOps: 60, Async: true, Scripts: true, Cancels: true},
+		{MinTypes: 2, MaxTypes: 4, MinOps: 15, MaxOps: 45, Async: true, Scripts: true, Store: true}, // persistent bus (store, error handler, persistence timeout): delivery is unaffected
+	}
+	// wide registries: one type with more handlers than any small internal capacity (64, 128, 256 ...),
+	// once handlers spread over all positions, plain / context / async mixed; two publishes, queries
+	// after each
+	for wi, n := range []int{63, 64, 65, 66, 100, 129, 200, 257, 300} {
+		if !run.Mine(wi) {
+			continue
+		}
+		r := run.GlobalRand(uint64(7000 + wi))
+		t0 := r.IntN(len(h.Drivers))
+		p := &prog.Program{Types: []int{t0, (t0 + 1 + r.IntN(len(h.Drivers)-1)) % len(h.Drivers)}}
+		for j := 0; j < n; j++ {
+			reg := &prog.Reg{Class: j % 12, Once: j%3 == 0 || j >= n-2, Async: j%5 == 4}
+			if j%7 == 3 {
+				reg.Ctx, reg.Class = true, j%6
+			}
+			p.Ops = append(p.Ops, prog.Op{K: prog.Sub, T: 0, Reg: reg})
+		}
+		p.Ops = append(p.Ops, prog.Op{K: prog.Count, T: 0}, prog.Op{K: prog.Pub, T: 0}, prog.Op{K: prog.Wait}, prog.Op{K: prog.Count, T: 0}, prog.Op{K: prog.Has, T: 0},
+			prog.Op{K: prog.Pub, T: 0, UseCtx: true}, prog.Op{K: prog.Wait}, prog.Op{K: prog.Count, T: 0}, prog.Op{K: prog.Unsub, T: 0, Class: 1}, prog.Op{K: prog.Count, T: 0}, prog.Op{K: prog.Pub, T: 1}, prog.Op{K: prog.Has, T: 1})
+		eng := h.Exec(900000+wi, p, nil, after)
+		_ = eng
+		run.Count("wide_registry_programs", 1)
+		run.Max("max_handlers_of_one_type", int64(n))
 	}
 	for i := 0; i < n; i++ {
 		p := prog.Gen(run.Rand(uint64(i)), h.Drivers, profiles[i%len(profiles)])
